@@ -252,7 +252,7 @@ def run_lines(binary, lines, args=("lines",), timeout=900, env=None):
     return [x for o in outs for x in o]
 
 
-def run_lines_hang_aware(binary, lines, hang_output, args=("lines",), chunk_timeout=120, case_timeout=10, env=None):
+def run_lines_hang_aware(binary, lines, hang_output, args=("lines",), chunk_timeout=60, case_timeout=5, env=None):
     """run_lines for operations that must return promptly: when a chunk does not finish within
     chunk_timeout the cases of that chunk are run one at a time; a case that does not return within
     case_timeout yields hang_output instead of aborting the check."""
@@ -267,17 +267,18 @@ def run_lines_hang_aware(binary, lines, hang_output, args=("lines",), chunk_time
                 raise
         except subprocess.TimeoutExpired:
             pass
-        out = []
-        for ln in ch:
+        def single(ln):
             try:
-                out.append(_run_chunk(binary, [ln], args, case_timeout, env)[0])
+                return _run_chunk(binary, [ln], args, case_timeout, env)[0]
             except CheckError as e:
                 if "exited 124" not in str(e):
                     raise
-                out.append(hang_output)
+                return hang_output
             except subprocess.TimeoutExpired:
-                out.append(hang_output)
-        return out
+                return hang_output
+        from concurrent.futures import ThreadPoolExecutor as _TP
+        with _TP(max_workers=16) as ex2:
+            return list(ex2.map(single, ch))
     from concurrent.futures import ThreadPoolExecutor
     with ThreadPoolExecutor(max_workers=8) as ex:
         outs = list(ex.map(one, chunks))
